@@ -165,7 +165,7 @@ Definition step_req (srv : option site) (s : state) (r : request) : state * step
     | Some old =>                                              (* "Incoming request overrides existing request": pop, stop() *)
         let '(_, acts, _) := old_unregister_tm (e_pipes old) in
         let '(s', _, l) := perform (set_incoming s1 (remove_id (r_id (e_req old)) (s_incoming s1))) (e_req old) acts in
-        (s', l ++ (if cancel_raises srv (e_req old) && negb (e_finished old) then [LogDiscarded] else []))
+        (s', l)
     | None => (s1, [])
     end in
   let e := {| e_req := r; e_pipes := setup_pipes; e_finished := false |} in
